@@ -16,7 +16,7 @@ import (
 
 func init() { register("C04", "model_checking", runC04) }
 
-var idRe = regexp.MustCompile(`\b[0-9a-fqrw][0-9]\b`)
+var idRe = regexp.MustCompile(`\b[0-9a-fpqrw][0-9]\b`)
 
 // template of a transaction name: ids wildcarded
 func templ(name string) string { return idRe.ReplaceAllString(name, "*") }
@@ -139,6 +139,35 @@ func runC04(r *ev.Run) {
 		cfg.OnEdge = func(e *dbx.Edge) {
 			model := e.Pre.Transact(e.Txn.Ops)
 			tp := templ(e.Txn.Name)
+			historyIndependence := func(e *dbx.Edge) {
+			// (f) history independence: a fresh database loaded with exactly the pre rows answers alike
+			if len(e.Hist) > 0 {
+				s2 := sys.New(dbs)
+				lres, lerr := s2.TransactRef(loadTxn(e.Pre))
+				ok := lerr == nil
+				for _, x := range lres {
+					if x.Error != "" {
+						ok = false
+					}
+				}
+				if !ok {
+					r.Violation("c04.load-rejected."+tp, fmt.Sprintf("[%s] the rows stored after %v are rejected when inserted into a fresh database: %s", sname, e.HistName, ev.J(lres)), mkCase(sname, e, "load rejected", ""))
+					return
+				}
+				if s2.State().Dump() != e.Pre.Dump() {
+					r.Violation("c04.load-differs."+tp, fmt.Sprintf("[%s] loading the rows stored after %v gives different rows", sname, e.HistName), mkCase(sname, e, "load differs", s2.State().Dump()))
+					return
+				}
+				res2, err2 := s2.TransactRef(e.Txn.Ops)
+				post2 := s2.State()
+				if (err2 == nil) != (e.RPCErr == nil) || errShape(res2) != errShape(e.Res) || post2.Dump() != e.Post.Dump() {
+					r.Violation("c04.history-dependence."+tp,
+						fmt.Sprintf("[%s] %s: same rows reached by history vs loaded fresh answer differently: %s vs %s", sname, histStr(e), errShape(e.Res), errShape(res2)),
+						mkCase(sname, e, "history dependence", "fresh-load results: "+ev.J(res2)+"\nfresh-load post state:\n"+post2.Dump()))
+				}
+				r.Add("history_independence_checks", 1)
+			}
+			}
 			r.Distinct("outcomes", fmt.Sprintf("%v/%v", e.Accepted, model.Accepted()))
 			if e.Depth == 0 && e.Hist == nil && len(e.Txn.Ops) > 1 {
 				r.Sample(map[string]interface{}{"schema": sname, "history": e.HistName, "txn": e.Txn.Name, "accepted": e.Accepted})
@@ -153,6 +182,7 @@ func runC04(r *ev.Run) {
 					r.Add("impl_rejects_model_accepts", 1)
 					r.Distinct("impl_rejects_model_accepts_kinds", tp)
 				}
+				historyIndependence(e)
 				return
 			}
 			// (a)(b)(c) from stored rows only
@@ -183,37 +213,15 @@ func runC04(r *ev.Run) {
 			if rc := recomputeRefs(e.Post); rc != e.PostRefs {
 				r.Add("noted_reference_index_mismatch", 1)
 				r.Distinct("noted_reference_index_mismatch_kinds", tp)
+				if r.DistinctCount("noted_reference_index_mismatch_kinds") <= 3 {
+					r.Note(fmt.Sprintf("reference index differs from rows after %s:\nindex:\n%s\nfrom rows:\n%s", histStr(e), e.PostRefs, rc))
+				}
 			}
-			// (f) history independence: a fresh database loaded with exactly the pre rows answers alike
-			if len(e.Hist) > 0 {
-				s2 := sys.New(dbs)
-				lres, lerr := s2.TransactRef(loadTxn(e.Pre))
-				ok := lerr == nil
-				for _, x := range lres {
-					if x.Error != "" {
-						ok = false
-					}
-				}
-				if !ok {
-					r.Violation("c04.load-rejected."+tp, fmt.Sprintf("[%s] the rows stored after %v are rejected when inserted into a fresh database: %s", sname, e.HistName, ev.J(lres)), mkCase(sname, e, "load rejected", ""))
-					return
-				}
-				if s2.State().Dump() != e.Pre.Dump() {
-					r.Violation("c04.load-differs."+tp, fmt.Sprintf("[%s] loading the rows stored after %v gives different rows", sname, e.HistName), mkCase(sname, e, "load differs", s2.State().Dump()))
-					return
-				}
-				res2, err2 := s2.TransactRef(e.Txn.Ops)
-				post2 := s2.State()
-				if (err2 == nil) != (e.RPCErr == nil) || errShape(res2) != errShape(e.Res) || post2.Dump() != e.Post.Dump() {
-					r.Violation("c04.history-dependence."+tp,
-						fmt.Sprintf("[%s] %s: same rows reached by history vs loaded fresh answer differently: %s vs %s", sname, histStr(e), errShape(e.Res), errShape(res2)),
-						mkCase(sname, e, "history dependence", "fresh-load results: "+ev.J(res2)+"\nfresh-load post state:\n"+post2.Dump()))
-				}
-				r.Add("history_independence_checks", 1)
-			}
+			historyIndependence(e)
 		}
 		dbx.Explore(r, cfg)
 	}
+	r.Set("impl_rejects_model_accepts_kind_list", r.DistinctKeys("impl_rejects_model_accepts_kinds"))
 	r.Set("traces_validated_against_impl", r.Get("transitions"))
 	r.Set("distinct_nontrivial", r.DistinctCount("nontrivial"))
 	r.Set("evaluations", r.Get("transitions"))
